@@ -46,6 +46,7 @@ pub fn run(ctx: &mut Ctx) {
 pub fn replay(ctx: &mut Ctx, v: &Value) -> Result<(), String> {
     let kind = v.get("kind").and_then(|k| k.as_str()).unwrap_or("");
     match kind {
+        "doc" | "junk" if ctx.prop == "C05" || ctx.prop == "C06" => decision_replay(ctx, v),
         "doc" | "junk" => docs::replay(ctx, v),
         "line" => lines::replay(ctx, v),
         "list" => listing::replay(ctx, v),
@@ -60,6 +61,60 @@ pub fn replay(ctx: &mut Ctx, v: &Value) -> Result<(), String> {
         "cli" => cli::replay(ctx, v),
         other => Err(format!("unknown replay kind {other:?}")),
     }
+}
+
+/// Decision events of one document: every element is checked against the reference at the
+/// decision point (only disagreements attributed to `prop` count).
+pub fn decision_one(ctx: &mut Ctx, prop: &str, rd: &crate::doc::Rendered, sp: &crate::api::Sp, cfg: &crate::api::Cfg, step: u8) {
+    if crate::judge::recognition_in_dispute(&rd.text, sp) || !crate::judge::spans_consistent(rd, sp) {
+        ctx.skip("tag recognition in dispute / delimiter characters outside tags on this rendering");
+        return;
+    }
+    ctx.eval();
+    match crate::api::call_clean(&rd.text, sp, cfg) {
+        Err(p) => {
+            ctx.panic_site(&p);
+            ctx.skip("clean panicked on a G-ast document (C01 territory)");
+        }
+        Ok((_, ev)) => {
+            let (bad, nd) = crate::judge::check_decisions(rd, step, &ev);
+            ctx.count_n("events:Decision", nd as u64);
+            if let Some(b) = bad.iter().find(|b| b.0 == prop) {
+                ctx.violation(
+                    "ast-decisions",
+                    format!("{} :: {:?}", b.1, crate::util::trunc(&rd.text, 300)),
+                    crate::judge::doc_replay("doc", rd, sp, cfg, step),
+                );
+            } else if nd > 0 {
+                ctx.nontrivial(crate::util::hash64(&[rd.text.as_bytes(), &[step]]));
+                ctx.count("ast-documents-with-decisions-held");
+            }
+        }
+    }
+}
+
+/// Decision events inside full G-ast documents at all four configuration steps.
+pub fn decision_stage(ctx: &mut Ctx, prop: &'static str, stream: u64, total: u64, until: f64) {
+    let (seed, shard, n) = (ctx.seed, ctx.shard, ctx.nshards);
+    for i in (shard..total).step_by(n as usize) {
+        if ctx.past(until) {
+            break;
+        }
+        let step = 1 + (i % 4) as u8;
+        let cfg = crate::doc::step_cfg(step);
+        let (rd, sp) = docs::gen_ast_doc(seed, stream, i, i % 3 == 0, false);
+        decision_one(ctx, prop, &rd, &sp, &cfg, step);
+    }
+}
+
+fn decision_replay(ctx: &mut Ctx, v: &Value) -> Result<(), String> {
+    let rd = crate::doc::Rendered::from_json(v.get("doc").ok_or("no doc")?).ok_or("bad doc")?;
+    let sp = crate::api::Sp::from_json(v.get("sp").ok_or("no sp")?).ok_or("bad sp")?;
+    let cfg = crate::api::Cfg::from_json(v.get("cfg").ok_or("no cfg")?).ok_or("bad cfg")?;
+    let step = v.get("step").and_then(|s| s.as_u64()).unwrap_or(2) as u8;
+    let prop = ctx.prop.clone();
+    decision_one(ctx, &prop, &rd, &sp, &cfg, step);
+    Ok(())
 }
 
 /// Record a verdict. `h` identifies the input for distinct-nontrivial counting.
